@@ -92,6 +92,9 @@ func (w *walker) expr(e ast.Expr) {
 	switch x := e.(type) {
 	case nil:
 	case *ast.CallExpr:
+		if _, hn := lastSel(x.Fun); hn == "vhook" || hn == "vhookTask" {
+			return // verification hooks leave no trace in a skeleton, whatever their arguments
+		}
 		w.expr(x.Fun)
 		for _, a := range x.Args {
 			w.expr(a)
